@@ -36,7 +36,7 @@ ASSUMPTIONS = [
     "relative order between Media files is not asserted (Django's merge contract), only set + multiplicity",
     "document mode without an insertion point inserts nothing (documented): then only marker removal is checked",
 ]
-BOUNDS = {"quick": {"programs": 6400}, "thorough": {"programs": 30000}}
+BOUNDS = {"quick": {"programs": 6400}, "thorough": {"programs": 100000}}
 CFG = {"assets": True, "skeleton": True, "deps": True, "elems": True, "errors": False, "isfilled": False, "max_nodes": 4, "only": True, "max_comps": 5, "extra_unrendered": True}
 
 _SCRIPT_RE = re.compile(r"<script([^>]*)>(.*?)</script>", re.S)
@@ -277,7 +277,7 @@ def check_program(case, col=None):
 
 def plan(tier, seed, scale=1.0):
     n = max(16, int(BOUNDS[tier]["programs"] * scale))
-    shards = 16 if tier == "quick" else 32
+    shards = 16 if tier == "quick" else 128
     return [{"kind": "main", "n": n // shards, "seed": derive_seed(seed, "c04", sh)} for sh in range(shards)]
 
 
